@@ -477,6 +477,24 @@ func (m *Machine) runlock(p *Value) {
 	m.schedPoint("runlock")
 }
 
+type condState struct {
+	next      int
+	waiting   []int
+	signalled map[int]bool
+}
+
+func (m *Machine) condState(p *Value) *condState {
+	if m.conds == nil {
+		m.conds = map[*Value]*condState{}
+	}
+	if s, ok := m.conds[p]; ok {
+		return s
+	}
+	s := &condState{signalled: map[int]bool{}}
+	m.conds[p] = s
+	return s
+}
+
 type wgState struct{ n int64 }
 
 func (m *Machine) wg(p *Value) *wgState {
